@@ -37,9 +37,4 @@ def patchwiseCodeF [Mul α] (S : Nat) (etcv : Nat → Nat → Nat → α) (ridx 
 def monoF [Add α] [Zero α] (P : Nat) (pw : Nat → Nat → α) : Nat → α :=
   fun t => (List.range P).foldl (fun acc j => acc + pw j t) 0
 
-/-- Direct sound value `1/(4π r²) · exp(-m r) · g` (the directivity factor `g` is applied
-    only when the source has a directivity). -/
-def directValue [Mul α] [Div α] [Neg α] [One α] [Transc α] (four : α) (r m : α) : α :=
-  (One.one / (four * Transc.pi * (r * r))) * Transc.exp (-m * r)
-
 end Sparrow
